@@ -101,9 +101,11 @@ prop('C02', units=['cmp', 'core', 'scale', 'digits', 'pow10'], level='proof',
      level_text=('Verus proves that cmp / partial_cmp on values and on reference views return exactly the comparison of the denoted numbers '
                  '(sign handling, checked scale difference with the order decided by the scales when it overflows, reversal for negatives; '
                  'compare_scaled_biguints: bit-length pre-filter, digit-count comparison and the digit-wise loop with its remaining-digits-all-zero tail) '
-                 'with no scale precondition and no overflow, and that eq on values and views forwards to the equality routine; the equality routine itself '
-                 'is proved free of overflow / failed unwrap / bad indexing on its real body (this found the tmp + carry defect, now fixed), while its functional '
-                 'contract (true iff the values are equal) and the u64/u128 fast path compare_scalar_biguints are ASSUMED, not proved. Totality, antisymmetry and '
+                 'with no scale precondition and no overflow, and that eq on values and views forwards to the equality routine; the equality routine '
+                 '(check_equality_bigdecimal_ref) is proved on its real body to return true exactly when the two denoted numbers are equal -- sign screening, scale-gap overflow, '
+                 'the bit-length pre-filter, the allocation-free u32-word loop with its multiply-and-carry (inductive invariant  b*10^k - a == 2^(32j) * (rest_b*10^k + carry - rest_a)), '
+                 'its overflow fall-back, and the decimal-digit path for gaps >= 20 -- and free of overflow / failed unwrap / bad indexing (this found the tmp + carry defect, now fixed). '
+                 'Only the u64/u128 fast path compare_scalar_biguints of cmp is ASSUMED, not proved. Totality, antisymmetry and '
                  'transitivity follow because the result is a function of the pair of denoted integers at a common scale (lemma_cmp_at)'),
      level_note=_NOTE_COMMON + ' Float axiom A2 for the bit-length pre-filter; 64-bit target (size_of usize == 8); the reversed digit iterator and the u32 word iterator are explicit-state stand-ins (R6).',
      technique=_TECH)
@@ -212,7 +214,7 @@ prop('C19', units=['clients', 'add', 'sub', 'mul', 'derived', 'prim_add', 'prim_
                  'taken along the way are the comparison of the values. In addition five client programs (mixed overloads, an accumulator with compound assignments, a zero carrying a '
                  'scale and a one written as 1.00, normalize / re-scale / double-half / double negation with ==, square and primitive forms) are verified against the callee contracts '
                  'only, which checks that the contracts do compose (scale bounds propagate). Hashes are excluded (C03 n/a); the Sum impls are not under contract'),
-     level_note=_NOTE_COMMON + ' The functional contract of the equality routine used by is_one / == is assumed (see C02).',
+     level_note=_NOTE_COMMON + ' The equality routine used by is_one / == is proved in the cmp unit (C02), which the run of this property includes.',
      technique=_TECH + '; modular composition plus client programs verified against callee contracts only')
 
 prop('C20', units=['config', 'context', 'round', 'div'], level='proof',
